@@ -29,7 +29,7 @@ ASSUMPTIONS = ['comparison is with the frame as it was when saved (a derived fra
                'blimpy container conventions (f_start/f_stop as band edges) are not judged: get_waterfall() is judged by its header and data only']
 STARTS = ['synthetic', 'from_data', 'shape', 'loaded_fil', 'loaded_h5', 'loaded_fsel']
 OPS = ['add_noise', 'add_signal', 'get_waterfall', 'copy', 'save_fil', 'save_h5', 'reload_fil', 'reload_h5', 'get_slice', 'dedrift', 'pickle',
-       'other_frame', 'retime']
+       'other_frame', 'retime', 'retune']
 
 
 def required(tier):
@@ -290,6 +290,15 @@ def _run(stg, c, d, R):
                 maxd = 0.3 * fr.fchans * fr.df / (fr.tchans * fr.dt)
                 ancestors.append(fr)
                 fr = stg.dedrift(fr, (o['a'] - 0.5) * 2 * maxd)
+                derived = True
+            elif op == 'retune':
+                # processed data handed back together with the Waterfall of the frame it came from (the documented from_data
+                # route), but describing ANOTHER band of the same shape: equal shape does not mean equal band
+                k = [40, 100, -7][int(o['a'] * 3) % 3]
+                wf = fr.get_waterfall()
+                ancestors.append(fr)
+                fr = stg.Frame.from_data(fr.df, fr.dt, fr.fch1 + k * fr.df, fr.ascending, marker(rng, fr.tchans, fr.fchans),
+                                         waterfall=wf, t_start=float(fr.t_start), source_name=fr.source_name)
                 derived = True
             elif op == 'pickle':
                 p = newpath('pickle')
